@@ -500,6 +500,7 @@ def oracle_c11(run, ops, impl):
     st = {"pv": {}, "v": {}, "f": {}}
     bonded, wl, vp = {}, [], 1
     deleg = {}   # the oracle's own record of who each validator currently delegates to (from the accepted messages)
+    sub = {}     # the oracle's own record of the height at which each validator's latest accepted prevote was submitted
     for i, (op, ob) in enumerate(zip(ops, impl)):
         a = op.split()
         if a[1] == "reset":
@@ -507,6 +508,7 @@ def oracle_c11(run, ops, impl):
             bonded = {x.split("/")[0]: x.split("/")[1] == "1" for x in plist(a[4])}
             st = {"pv": {}, "v": {}, "f": {}}
             deleg = {}
+            sub = {}
             continue
         if ob.startswith("panic"):
             out.append(V("C11:panic", {"line": i + 1, "op": op}))
@@ -527,6 +529,11 @@ def oracle_c11(run, ops, impl):
                     out.append(V("C11:prevote-acceptance", {"line": i + 1, "op": op, "result": res, "authorised": auth}))
                 if res != "ok" and new != st:
                     out.append(V("C11:rejected-prevote-changed-state", {"line": i + 1, "op": op}))
+                if res == "ok":
+                    sub[val] = h
+                    if len(a) > 6 and new["pv"].get(val) != (a[6].lower(), h):
+                        out.append(V("C11:prevote-not-recorded-as-submitted", {"line": i + 1, "op": op, "stored": new["pv"].get(val),
+                                                                               "submitted": (a[6], h)}))
             else:
                 rates = bytes.fromhex(a[5]).decode() if a[5] != "-" else ""
                 decs = {}
@@ -534,6 +541,8 @@ def oracle_c11(run, ops, impl):
                     k, v = it.split("=")
                     decs[bytes.fromhex(k).decode() if k != "-" else ""] = None if v == "err" else int(v)
                 pv = st["pv"].get(val)
+                if pv is not None and val in sub:
+                    pv = (pv[0], sub[val])      # the period of the commitment comes from the oracle's own record
                 tuples = parse_rates_py(rates, decs)
                 want = bool(auth and pv is not None and ((h // vp) - (pv[1] // vp)) % 2 ** 64 == 1 and tuples is not None and
                             all(t[0] in wl for t in tuples) and pv[0] == a[7])
